@@ -107,11 +107,22 @@ def _gs(rec, case):
             ref = _textbook_gs(A, ref, b, order_for('forward')); ref = _textbook_gs(A, ref, b, order_for('backward'))
         else:
             ref = _textbook_gs(A, ref, b, order_for(sweep))
-    x = x0.copy()
+    # the iterate is updated in place: also when the caller hands in a strided view (a column of a block of vectors, every other
+    # entry of a longer vector), which is what multi-right-hand-side and block solvers do
+    lay = int(rng.integers(0, 3))
+    if lay == 1:
+        blk = np.zeros((n, 2)); blk[:, 1] = x0; blk[:, 0] = -7.0; x = blk[:, 1]
+    elif lay == 2:
+        blk = np.full(2 * n, -7.0); blk[::2] = x0; x = blk[::2]
+    else:
+        x = x0.copy()
+    sig = dict(sig, x_layout=('contiguous', 'column of a block', 'strided')[lay])
     with warnings.catch_warnings():
         warnings.simplefilter('ignore')
         ok, _ = guarded(rec, desc, sig, solvers.gauss_seidel, Aop, x, b, iterations=iters, indices=idx, sweep=sweep)
     if not ok: return
+    if lay == 1 and not np.all(blk[:, 0] == -7.0) or lay == 2 and not np.all(blk[1::2] == -7.0):
+        rec.violation(dict(sig, oracle='entries outside the view are untouched'), desc, {}); return
     # forward error bound of one update, accumulated over the updates performed
     absA = np.abs(A); diag = np.abs(np.diag(A))
     growth = (absA.sum(axis=1) / diag).max() + 1
